@@ -29,7 +29,8 @@ FLOORS = {'countif_cases': 1000, 'countifs_cases': 200, 'match_cases': 500,
           'vlookup_cases': 500, 'choose_cases': 100,
           'operator_prefixes_seen': 6, 'library_calls': 500,
           'countifs_rectangles': 100, 'choose_with_ranges': 100,
-          'criteria_vs_operator_cases': 50}
+          'criteria_vs_operator_cases': 50,
+          'approximate_text_matches': 100}
 ANCHOR_FUNCS = {
     'xlcalculator/xlfunctions/lookup.py': ['MATCH', 'VLOOKUP', 'CHOOSE'],
     'xlcalculator/xlfunctions/statistics.py': ['COUNTIF', 'COUNTIFS'],
@@ -320,6 +321,27 @@ def run(ctx):
                              'group': 'MATCH-approx:' + (
                                  'below' if not pos else
                                  ('dup' if dup > 1 else 'plain'))})
+        B.maybe_flush()
+        # ---- MATCH approximate on ascending TEXTS (ascending in the case-
+        # insensitive order the comparison operators use) ------------------------
+        pool_t = ['apple', 'Banana', 'cherry', 'Date', 'elder', 'Fig',
+                  'grape', 'Kiwi']
+        asc_t = sorted(rng.sample(pool_t, rng.randint(2, 7)),
+                       key=lambda t: t.lower())
+        rg_t = B.place([[v] for v in asc_t])
+        for key in (asc_t[0], asc_t[-1], rng.choice(asc_t).upper(),
+                    rng.choice(asc_t).lower(), 'coconut', 'zebra'):
+            pos = max((i + 1 for i, v in enumerate(asc_t)
+                       if v.lower() <= key.lower()), default=None)
+            want = ('num', float(pos)) if pos else ('err', '#N/A')
+            for form in (f'=MATCH({subject.lit(key)},{rg_t},1)',
+                         f'=MATCH({subject.lit(key)},{rg_t})'):
+                B.add(form, {'want': want, 'counter': 'match_cases',
+                             'nt': ('MATCH-approx-text', bool(pos),
+                                    key.lower() in [t.lower()
+                                                    for t in asc_t]),
+                             'data': asc_t, 'group': 'MATCH-approx-text'})
+            ctx.event('approximate_text_matches')
         B.maybe_flush()
         # ---- VLOOKUP exact, every column index ---------------------------------------
         nrows, ncols = rng.randint(1, 10), rng.randint(1, 4)
